@@ -77,13 +77,27 @@ class QModel:
         wm = [b for b in cad.all_bodies if b.impl_self and type_head(b.impl_self) == self.worker and b.def_kind == 'AssocFn'
               and b.impl_trait is None]
         self.wmethods = wm
-        self.run = [b for b in wm if any(strip_generics(t.get('callee_full', '')) in DEQ_OPS or
-                                         callee_is(t, 'crossbeam_channel::channel::Receiver::iter',
-                                                   'crossbeam_channel::channel::Receiver::try_iter')
-                                         for _, t in b.calls())]
+        # spawn function: the fn calling thread::spawn ; the worker loop is the worker method its closure calls
+        self.spawn = [b for b in cad.all_bodies if b.def_kind == 'Fn' and b.file.endswith('queuing.rs')
+                      and any(callee_is(t, 'std::thread::functions::spawn', 'std::thread::builder::Builder::spawn')
+                              for _, t in b.calls())]
+        wpaths = set(b.path for b in wm)
+        self.run = []
+        if len(self.spawn) == 1:
+            for c_ in cad.closures_of(self.spawn[0].path):
+                for _, t in c_.calls():
+                    if t.get('resolved') in wpaths and cad.bodies[t['resolved']] not in self.run:
+                        self.run.append(cad.bodies[t['resolved']])
         self.stop = []
         self.submit = []
-        for b in wm:
+        for b0 in wm:
+            if b0 in self.run:
+                continue
+            # entry points only: methods called from outside the worker type (handle, drop guards); helpers are inlined
+            ext = [y for y in cad.all_bodies if y not in wm and any(t.get('resolved') == b0.path for _, t in y.calls())]
+            if not ext:
+                continue
+            b = inl(cad, b0)
             T = Terms(b)
             for bi, t in b.calls():
                 if b.blocks[bi]['cleanup']:
@@ -95,15 +109,11 @@ class QModel:
                         continue
                     pay = ct[2][1]
                     if pay[0] == 'adt' and pay[2] == 'None':
-                        if b not in self.stop:
-                            self.stop.append(b)
+                        if b0 not in self.stop:
+                            self.stop.append(b0)
                     elif pay[0] == 'adt' and pay[2] == 'Some':
-                        if b not in self.submit:
-                            self.submit.append(b)
-        # spawn function: the fn calling thread::spawn whose closure calls run
-        self.spawn = [b for b in cad.all_bodies if b.def_kind == 'Fn' and b.file.endswith('queuing.rs')
-                      and any(callee_is(t, 'std::thread::functions::spawn', 'std::thread::builder::Builder::spawn')
-                              for _, t in b.calls())]
+                        if b0 not in self.submit:
+                            self.submit.append(b0)
         self.build = cad.method(QB, 'build')
         # stats getters on the public handle
         self.counters = {}
@@ -113,14 +123,6 @@ class QModel:
             if len(bs) != 1:
                 rep.anchor_lost('Q0', 'QueuingMetricSink::%s' % name)
                 self.ok_counters = False
-        if len(self.run) > 1 and len(self.spawn) == 1:
-            # several methods touch the receiver: the worker loop is the one the spawned thread calls; the others are
-            # reported by the one-consumer rule (C08-R2)
-            sc0 = cad.closures_of(self.spawn[0].path)
-            called = set(t.get('resolved') for c_ in sc0 for _, t in c_.calls())
-            pick = [b for b in self.run if b.path in called]
-            if len(pick) == 1:
-                self.run = pick
         if len(self.run) != 1 or len(self.stop) != 1 or len(self.submit) != 1 or len(self.spawn) != 1 or len(self.build) != 1:
             rep.anchor_lost('Q0', 'worker run/stop/submit, spawn fn, build by role: %d/%d/%d/%d/%d' % (
                 len(self.run), len(self.stop), len(self.submit), len(self.spawn), len(self.build)))
@@ -263,3 +265,21 @@ def transitive_local(cad, roots, stop_at=()):
                     if cp in cad.bodies and cp not in stop_at:
                         st.append(cad.bodies[cp])
     return list(seen.values())
+
+
+def private_region(cad, root, within_type=None):
+    """root + private methods that are only called (transitively) from the region: helpers of `root`."""
+    region = {root.path}
+    changed = True
+    while changed:
+        changed = False
+        for x in cad.all_bodies:
+            if x.path in region or x.j.get('reachable') or x.def_kind not in ('AssocFn', 'Fn'):
+                continue
+            if within_type and not (x.impl_self and type_head(x.impl_self) == within_type):
+                continue
+            callers = set(y.path for y in cad.all_bodies for _, t in y.calls() if t.get('resolved') == x.path)
+            if callers and callers <= region:
+                region.add(x.path)
+                changed = True
+    return region
